@@ -15,12 +15,25 @@ functions = [
      'region_tail': 'return true;',
      'sig': 'bool AQT_ComputeRangeTail(struct AQT *self, int num_components, const float *max_values)',
      'subst': [(r'std::isnan\(', 'isnan(', 0), (r'std::isinf\(', 'isinf(', 0), (r'\bmin_values_\[', 'self->min_values_[', 1)], 'members': ['range_']},
+    # transport of the quantization parameters (origin per component, range, bits) through the stream
+    {'name': 'AQT_EncodeParameters', 'file': AQ, 'anchor': r'bool AttributeQuantizationTransform::EncodeParameters\(\s*EncoderBuffer \*encoder_buffer\) const\s*\{',
+     'sig': 'bool AQT_EncodeParameters(const struct AQTP *self, struct EncoderBuffer *encoder_buffer)',
+     'subst': [(r'is_initialized\(\)', 'AQTP_is_initialized(self)', 0), (r'encoder_buffer->Encode\(min_values_\.data\(\),\s*sizeof\(float\) \* min_values_\.size\(\)\)', 'EncoderBuffer_EncodeBytes(encoder_buffer, self->min_values_.data, sizeof(float) * self->min_values_.size)', 0),
+               (r'encoder_buffer->Encode\(range_\)', 'EncoderBuffer_Encode_f32(encoder_buffer, &self->range_)', 0),
+               (r'encoder_buffer->Encode\(static_cast<uint8_t>\(quantization_bits_\)\)', 'EncoderBuffer_Encode_u8_val(encoder_buffer, (uint8_t)(self->quantization_bits_))', 0)]},
+    {'name': 'AQT_DecodeParameters', 'file': AQ, 'anchor': r'bool AttributeQuantizationTransform::DecodeParameters\(\s*const PointAttribute &attribute, DecoderBuffer \*decoder_buffer\)\s*\{',
+     'sig': 'bool AQT_DecodeParameters(struct AQTP *self, int attribute_num_components, struct DecoderBuffer *decoder_buffer)',
+     'subst': [(r'min_values_\.resize\(attribute\.num_components\(\)\)', 'fvec_resize(&self->min_values_, (size_t)attribute_num_components)', 0),
+               (r'decoder_buffer->Decode\(&min_values_\[0\],\s*sizeof\(float\) \* min_values_\.size\(\)\)', 'DecoderBuffer_DecodeBytes(decoder_buffer, &self->min_values_.data[0], sizeof(float) * self->min_values_.size)', 0),
+               (r'decoder_buffer->Decode\(&range_\)', 'DecoderBuffer_Decode_f32(decoder_buffer, &self->range_)', 0), (r'decoder_buffer->Decode\(&quantization_bits\)', 'DecoderBuffer_Decode_u8(decoder_buffer, &quantization_bits)', 0),
+               (r'\bIsQuantizationValid\(', 'AQT_IsQuantizationValid(', 0), (r'(?<![\w>.])quantization_bits_\b', 'self->quantization_bits_', 0)]},
 ]
 UNIT = {'name': 'quant', 'structs': [
     {'struct': 'Quantizer', 'file': QH, 'fields': [('float inverse_delta_', r'float inverse_delta_;')]},
     {'struct': 'Dequantizer', 'file': QH, 'fields': [('float delta_', r'float delta_;')]},
     {'struct': 'AQT', 'file': 'src/draco/attributes/attribute_quantization_transform.h', 'fields': [('int32_t quantization_bits_', r'int32_t quantization_bits_;'), ('float *min_values_', r'std::vector<float> min_values_;'), ('float range_', r'float range_;')]},
-], 'consts': [], 'functions': functions, 'pre_text': []}
+], 'consts': [], 'functions': functions,
+   'pre_text': ['struct fvec { float *data; size_t size; size_t cap; };\nstruct AQTP { int32_t quantization_bits_; struct fvec min_values_; float range_; };   /* same members as struct AQT, min_values_ as a vector model */']}
 SRC = 'contracts/quant.c'
 DEFS = ['-DDRACO_BACKWARDS_COMPATIBILITY_SUPPORTED']
 JOBS = []
@@ -33,6 +46,8 @@ for q in range(1, 31):
     quick = q in (1, 2, 4, 8, 10)
     if q <= 16:
         J('grid.q%d' % q, 'h_quant_grid', ['C04', 'C12'], defines=DEFS + ['-DQ=%d' % q], cbmc=FL, tier=None if quick else 'thorough', timeout=1800, cost=7, native=True, may_time_out=not quick)
+for nc in (1, 2, 3):   # per component count: CBMC's memcpy model loses bytes for a SYMBOLIC length into a typed array (DESIGN A.5), a constant length is exact
+    J('params.rt.nc%d' % nc, 'h_quant_params_rt', ['C04', 'C05', 'C12'], defines=DEFS + ['-DQP_NC=%d' % nc], unwind=34, unwind_reason='bounded: at most 3 components (byte copies of <= 12 bytes, 32-byte vector model); every origin, range and bit count; unwinding assertions on')
 J('mono', 'h_quant_mono', ['C04'], cbmc=FL, native=True, timeout=3600, tier='thorough', may_time_out=True)
 J('pure', 'h_enf_Quantizer_QuantizeFloat', ['C04', 'C12'], enforce='Quantizer_QuantizeFloat', cbmc=FL)
 J('pure.deq', 'h_enf_Dequantizer_DequantizeFloat', ['C04', 'C12'], enforce='Dequantizer_DequantizeFloat')
